@@ -192,7 +192,7 @@ def base_models():
                                             (('count', ('ge', X, N(1)), ('le', Y, N(1)), ('ge', B, N(1))), {}, 1.0, 2.0)])))
     Bm.append(('compl', Model(V3, acons=[(None, {0: 1.0, 1: 1.0}, -INF, INF), (None, {1: 1.0, 2: 1.0}, 0.0, 3.0)], compl={0: 0},
                               obj=('min', None, {0: 1.0}))))
-    Bm.append(('numberof+alldiff', Model(V3, acons=[(('numberof', X, B, N(1)), {}, -INF, 1.0)], lcons=[('alldiff', X, B, N(2))],
+    Bm.append(('numberof+alldiff', Model(V3, acons=[(('numberof', X, B, N(1)), {}, -INF, 1.0)], lcons=[('alldiff', X, B)],
                                          obj=('max', ('if', ('ge', B, N(1)), X, Y), {}))))
     Bm.append(('quad+div', Model(V3, acons=[(('add', ('mul', X, Y), ('div', Y, N(2))), {2: 1.0}, -1.0, 4.0), (('pow2', X), {}, -INF, 4.0)],
                                  obj=('min', ('sum', X, Y, B), {}))))
@@ -884,7 +884,7 @@ def nosol_label(c, err):
     if fam == 'malformed':
         return 'malformed input: ' + e
     if fam == 'option':
-        return ('invalid option' if c['kind'].startswith('badopt') else 'valid option') + ': ' + e
+        return 'invalid option' if c['kind'].startswith('badopt') else 'valid option'
     return sig_label(c) + ': ' + e
 
 
@@ -906,7 +906,7 @@ def sig_label(c):
     if fam in ('shapes', 'sharing', 'uenc', 'alldiffcont'):
         return c['cls']
     if fam == 'ladder':
-        return 'nesting depth %s (%s)' % (c['cls'].split('depth')[1], c['cls'].split(':')[1])
+        return 'nesting depth %s' % c['cls'].split('depth')[1]
     return c['cls']
 
 
@@ -984,15 +984,18 @@ def sol_msg(r):
 
 
 def build_driver(variant):
-    """vdriverlib.build, but a scratch tree ($VERIF_REPO) gets its own binary name: the shared build/bin/<variant>/vdriver is
-    used by other checks and must never be replaced by a mutated driver"""
-    if vbuild.REPO == '/repo':
+    """vdriverlib.build with two differences: (1) a scratch tree ($VERIF_REPO) gets its own binary name -- the shared
+    build/bin/<variant>/vdriver is used by other checks and must never be replaced by a mutated driver; (2) the sanitizer build
+    of the driver TU switches off UBSan's vptr check: mp's CRTP base constructors downcast `this` to the not yet constructed
+    implementation class (converter.h FlatConverter ctor), which would abort every single run before main() does anything"""
+    if vbuild.REPO == '/repo' and variant == 'plain':
         return vdriverlib.build(variant)
     import hashlib
-    jobs = [(os.path.join(vbuild.VERIF, 'checks/vdriver/vdriver.cc'), 'plain0' if variant == 'plain' else variant, (), '')]
+    extra = ('-fno-sanitize=vptr',) if variant == 'san' else ()
+    jobs = [(os.path.join(vbuild.VERIF, 'checks/vdriver/vdriver.cc'), 'plain0' if variant == 'plain' else variant, extra, 'c09' if extra else '')]
     jobs += [(s_, variant, (), '') for s_ in vbuild.LIBMP_SRCS]
     objs = vbuild.compile_many(jobs)
-    return vbuild.link('vdriver_' + hashlib.sha1(vbuild.REPO.encode()).hexdigest()[:8], objs, variant)
+    return vbuild.link('vdriver_c09_' + hashlib.sha1(vbuild.REPO.encode()).hexdigest()[:8], objs, variant)
 
 
 def build(variants=('plain',)):
